@@ -23,7 +23,7 @@ def lraRow (p : Pt) : Row :=
 
 def lraCols (fn : RangeFn) (d : Nat) : List Expr :=
   [bucketCol "time_series.timestamp_ns" d, simpleCol "fingerprint" "fingerprint", emptyStr,
-   .col (lraValue fn (secLit d)) "value"]
+   .col (lraValue fn (.int d)) "value"]
 
 theorem lra_aliasVals (o : Oracles) (env : Env) (fn : RangeFn) (d : Nat) (hd : 0 < d) (s : Sample) :
     aliasVals o env (lraCols fn d) (qualify "time_series" (sampleRow "_string" s)) =
@@ -31,10 +31,10 @@ theorem lra_aliasVals (o : Oracles) (env : Env) (fn : RangeFn) (d : Nat) (hd : 0
   have hd' : (d : Int) ≠ 0 := by omega
   have hd0 : d ≠ 0 := by omega
   cases fn <;>
-    simp [lraCols, aliasVals, hasAgg, aggNames, lraValue, countF, bytesF, secLit, bucketCol, simpleCol, emptyStr, evalE, evalEs,
+    simp [lraCols, aliasVals, hasAgg, aggNames, lraValue, perSecond, countF, bytesF, bucketCol, simpleCol, emptyStr, evalE, evalEs,
       qualify, sampleRow, Row.get, List.lookup, mulVal, bucketOf, hd0]
 
-theorem lra_group_row (o : Oracles) (env : Env) (fn : RangeFn) (d : Nat) (hms : 1000000 ∣ d) (hd : 0 < d)
+theorem lra_group_row (o : Oracles) (env : Env) (fn : RangeFn) (d : Nat) (hd : 0 < d)
     (k : Int × Int) (grp : List Sample) (s0 : Sample) (rest : List Sample) (hg : grp = s0 :: rest)
     (hk : lraKeyOf d s0 = k) :
     grow o env (lraCols fn d) (grp.map (fun s => qualify "time_series" (sampleRow "_string" s))) =
@@ -49,7 +49,7 @@ theorem lra_group_row (o : Oracles) (env : Env) (fn : RangeFn) (d : Nat) (hms : 
       apply List.map_congr_left
       intro s _
       rw [lra_aliasVals o env fn d hd]
-      simp [qualify, sampleRow, Row.get, List.lookup]) hms hd
+      simp [qualify, sampleRow, Row.get, List.lookup]) hd
   subst hg
   have hk1 : s0.fp = k.1 := by rw [← hk]; rfl
   have hk2 : bucketOf d s0.ts = k.2 := by rw [← hk]; rfl
@@ -58,11 +58,11 @@ theorem lra_group_row (o : Oracles) (env : Env) (fn : RangeFn) (d : Nat) (hms : 
   rw [hval]
   cases fn <;>
   simp [scope, aliasVals, hasAgg, aggNames, evalAgg, aggCall, evalE, evalEs, qualify, sampleRow, Row.get, List.lookup, mulVal,
-    bucketOf, hd0, ← hk1, ← hk2, lraValue, countF, bytesF, secLit]
+    bucketOf, hd0, ← hk1, ← hk2, lraValue, perSecond, countF, bytesF]
 
 /-- **range stage (LRAPlanner).** Over the entries of `agg_a`, the select returns one row per (stream, range bucket) in
     order of first occurrence, carrying the range function of the direct reading. -/
-theorem lra_eval (o : Oracles) (db : Db) (env : Env) (fn : RangeFn) (d : Nat) (hms : 1000000 ∣ d) (hd : 0 < d)
+theorem lra_eval (o : Oracles) (db : Db) (env : Env) (fn : RangeFn) (d : Nat) (hd : 0 < d)
     (es : List Sample) (hA : env.lookup (.named "agg_a") = some (es.map (sampleRow "_string")))
     (ws : List (Alias × Sel)) (hv : Option Expr) :
     evalBodyA o db env (.mk ws false (lraCols fn d) (some (.col (.withRef (.named "agg_a")) "time_series")) [] none none
@@ -87,7 +87,7 @@ theorem lra_eval (o : Oracles) (db : Db) (env : Env) (fn : RangeFn) (d : Nat) (h
   intro g hg
   obtain ⟨⟨s0, rest, hgr, hk0⟩, _⟩ := groupsBy_head (lraKeyOf d) es g hg
   simp only [Function.comp_apply]
-  exact lra_group_row o env fn d hms hd g.1 g.2 s0 rest hgr hk0
+  exact lra_group_row o env fn d hd g.1 g.2 s0 rest hgr hk0
 
 theorem lraRow_rep (pts : List Pt) (hl : ∀ p ∈ pts, p.labels = .null) : Rep (pts.map lraRow) pts := by
   apply rep_of_map
